@@ -18,7 +18,7 @@ CALLS = {"max": ("MAX", "SMAX"), "min": ("MIN", "SMIN"), "cat": ("CAT", "CAT"), 
 STR_RESULT = {"CAT", "SUBSTR", "I2S", "SMAX", "SMIN"}
 CMPS = {"=": ("EQ", "EQ"), "!=": ("NE", "NE"), "<": ("LT", "SLT"), "<=": ("LE", "SLE"), ">": ("GT", "SGT"), ">=": ("GE", "SGE")}
 CMP_TOK = ["!=", "<=", ">=", "=", "<", ">"]
-NAME = re.compile(r"[+]?[A-Za-z_?@][\w?@.]*")
+NAME = re.compile(r"[+]?[A-Za-z_?@][\w?@]*(?:\.[A-Za-z_?@][\w?@]*)*")
 
 class _P:
     def __init__(self, s):
@@ -230,7 +230,7 @@ def split_values(s):
             return None
         i += 2
 
-ATOM_TXT = re.compile(r"^(!?)([+]?[A-Za-z_?@][\w?@.]*)\((.*)\)$", re.S)
+ATOM_TXT = re.compile(r"^(!?)([+]?[A-Za-z_?@][\w?@]*(?:\.[A-Za-z_?@][\w?@]*)*)\((.*)\)$", re.S)
 CMP_TXT = re.compile(r"^(-?\d+) (=|!=|<|<=|>|>=) (-?\d+)$")
 
 def _conforms(rel, args, reltypes):
